@@ -10,14 +10,6 @@ EXTENDS Fen, Json, IOUtils
 
 Cases == JsonDeserialize(IOEnv.PERFT)     \* [{fen: chars, d: depth, n: published count}]
 
-RECURSIVE Perft(_, _)
-Perft(p, d) ==
-  IF d = 0 THEN 1
-  ELSE LET lg == Legal(p) IN
-       IF d = 1 THEN Cardinality(lg)
-       ELSE LET F[S \in SUBSET lg] == IF S = {} THEN 0 ELSE LET m == CHOOSE m \in S : TRUE IN Perft(Apply(p, m), d - 1) + F[S \ {m}]
-            IN F[lg]
-
 VARIABLE i
 Init == i \in DOMAIN Cases
 Next == UNCHANGED i
